@@ -656,6 +656,51 @@ def rule_r14(ctx):
         raise AnalysisBroken("no array queue with a head removal found (sfd_start_conn)")
 
 
+# ---------------------------------------------------------------------------
+# R15: the accept service loop of the posix listeners leaves a waiting accept only with the poller armed
+
+
+def rule_r15(ctx):
+    r = ctx.rule("C14.R15", "T2", "a waiting accept is not abandoned: in the service loops of the posix listeners "
+                 "(while ((aio = nni_list_first(&l->acceptq)) != NULL) ...) every way out of the function from inside the loop "
+                 "body either has taken that aio off the queue (it was completed) or has armed the poller (nni_posix_pfd_arm: "
+                 "the registration is one-shot, so nobody calls back otherwise) -- a connection the kernel reports as aborted "
+                 "must be skipped (continue), not answered by returning: the accept at the head of the queue would wait for "
+                 "ever and the listener, though open, accepts nobody again", floor=2)
+    prog = ctx.prog
+    n = 0
+    for f in prog.functions:
+        if f.cfg_failed or "/platform/posix/" not in "/" + f.file or not f.file.endswith("listen.c"):
+            continue
+        for b in f.blocks.values():
+            c = f.cond(b.id) if b.term and len(b.succs) == 2 else None
+            if c is None or b.term.get("kind") not in ("WhileStmt", "ForStmt"):
+                continue
+            firsts = [m for m in walk(c) if m.get("k") == "call" and m.get("fn") == "nni_list_first" and m["args"] and
+                      (last_field(f.expand(m["args"][0])) or "").endswith(".acceptq")]
+            asg = [m for m in walk(c) if m.get("k") == "asg" and m["lhs"].get("k") == "var"]
+            if not firsts or not asg or b.succs[0] is None:
+                continue
+            var = asg[0]["lhs"]["n"]
+            n += 1
+            safe = set()
+            for k in f.calls(("nni_aio_list_remove", "nni_list_remove", "nni_posix_pfd_arm")):
+                if k.node["fn"] == "nni_posix_pfd_arm" or any(
+                        a is not None and f.expand(a).get("k") == "var" and f.expand(a)["n"] == var for a in k.node["args"]):
+                    safe.add((k.b, k.i))
+            seen = f.reach((b.succs[0], 0), blocked=lambda bb, i, e: (bb, i) in safe or bb == b.id)
+            if (f.exit, 0) in seen:
+                path = f.find_path((b.succs[0], 0), lambda bb, i: (bb, i) == (f.exit, 0), blocked=lambda bb, i, e: (bb, i) in safe or bb == b.id)
+                ctx.fail(r, f, "accept left waiting without the poller armed", f.line_of(b.id, 0),
+                         "%s can return from inside its service loop with the accept at the head of %s still queued and without "
+                         "nni_posix_pfd_arm: nothing will call the listener back, and it never accepts again"
+                         % (f.name, last_field(f.expand(firsts[0]["args"][0]))), f.path_lines(path))
+            else:
+                r.ob(f, "every way out of the accept loop has completed the aio or armed the poller")
+    if n < 2:
+        raise AnalysisBroken("only %d posix accept service loops found" % n)
+
+
 def run(ctx):
     ctx.guard(rule_r1)
     ctx.guard(rule_r2)
@@ -672,3 +717,9 @@ def run(ctx):
     ctx.guard(rule_r12)
     ctx.guard(rule_r13)
     ctx.guard(rule_r14)
+    ctx.guard(rule_r15)
+    from . import c02
+    ctx.guard(c02.rule_s4)           # connection requests keep going out: the transmit latch is released by every completion
+    for rr in ctx.rules:
+        if rr.id == "C02.S4":
+            rr.id = "C14.R16"
